@@ -1,4 +1,5 @@
 SPECIFICATION TSpec
+CONSTANT TranslateVaddr = TRUE
 INVARIANT Verdict
 POSTCONDITION Accepted
 CHECK_DEADLOCK FALSE
